@@ -18,6 +18,10 @@
 (***************************************************************************)
 EXTENDS Srp6, NormString
 
+\* The server's group: the built-in pair (7, WoWN) in every concrete instance; small prime
+\* groups in the exhaustive models (same formulas, same 32-byte fields).
+CONSTANTS SrvG, SrvN
+
 VARIABLES obj, out
 avars == <<obj, out>>
 
@@ -35,7 +39,7 @@ AuthInit == obj = <<>> /\ out = [kind |-> "none"]
 Register(o, rawU, rawP, salt) ==
     /\ IsValid(rawU) /\ IsValid(rawP)
     /\ LET U == Text(rawU)  P == Text(rawP)
-           v == Verifier(WoWg, WoWN, U, P, salt)
+           v == Verifier(SrvG, SrvN, U, P, salt)
        IN /\ obj' = Put(o, [st |-> "verifier", U |-> U, v |-> v, salt |-> salt])
           /\ out' = [kind |-> "ok", U |-> U, v |-> v, salt |-> salt]
 
@@ -55,8 +59,8 @@ Export(o) ==
 IntoProof(o, o2, b) ==
     /\ Has(o, "verifier")
     /\ LET r == obj[o]
-           B == ServerPub(WoWg, WoWN, r.v, b)
-       IN IF KeyValid(B, WoWN)
+           B == ServerPub(SrvG, SrvN, r.v, b)
+       IN IF KeyValid(B, SrvN)
           THEN /\ obj' = Move(o, o2, [st |-> "proof", U |-> r.U, v |-> r.v, salt |-> r.salt,
                                       b |-> b, B |-> B])
                /\ out' = [kind |-> "ok", B |-> B, salt |-> r.salt]
@@ -80,8 +84,8 @@ ClientNew(o, rawU, rawP, g, N, B, salt, a) ==
 IntoServer(o, o2, A, m1, chal) ==
     /\ Has(o, "proof")
     /\ LET p   == obj[o]
-           K   == ServerK(WoWN, A, p.B, p.v, p.b)
-           exp == M1(WoWg, WoWN, p.U, p.salt, A, p.B, K)
+           K   == ServerK(SrvN, A, p.B, p.v, p.b)
+           exp == M1(SrvG, SrvN, p.U, p.salt, A, p.B, K)
        IN IF m1 = exp
           THEN /\ obj' = Move(o, o2, [st |-> "server", U |-> p.U, K |-> K, chal |-> chal])
                /\ out' = [kind |-> "ok", M2 |-> M2(A, exp, K), K |-> K, chal |-> chal]
@@ -120,6 +124,11 @@ CloneObj(o, o2) ==
     /\ obj' = Put(o2, obj[o])
     /\ out' = [kind |-> "ok"]
 
+\* an object goes out of scope
+DropObj(o) ==
+    /\ obj' = [x \in (DOMAIN obj) \ {o} |-> obj[x]]
+    /\ out' = [kind |-> "ok"]
+
 \* session_key() accessors
 SessionKeyOf(o) ==
     /\ (Has(o, "server") \/ Has(o, "client"))
@@ -137,7 +146,7 @@ TypeOK ==
     \A o \in DOMAIN obj :
        /\ obj[o].st \in {"verifier", "proof", "server", "challenge", "client", "gone"}
        /\ obj[o].st = "verifier" => (Len(obj[o].v) = 32 /\ Len(obj[o].salt) = 32)
-       /\ obj[o].st = "proof" => (Len(obj[o].B) = 32 /\ KeyValid(obj[o].B, WoWN))
+       /\ obj[o].st = "proof" => (Len(obj[o].B) = 32 /\ KeyValid(obj[o].B, SrvN))
        /\ obj[o].st = "server" => (Len(obj[o].K) = 40 /\ Len(obj[o].chal) = 16)
        /\ obj[o].st = "challenge" => (Len(obj[o].K) = 40 /\ Len(obj[o].m1) = 20 /\ Len(obj[o].A) = 32)
        /\ obj[o].st = "client" => Len(obj[o].K) = 40
